@@ -114,9 +114,9 @@ def cells(tier):
                     out.append(cfg)
     for name, (needs_other, _) in EXTRA.items():
         for d in (2, 3, 4):
-            for k in range(len(kinds) if tier == "thorough" else 6):
+            for k in range(len(kinds)):
                 h = zlib.crc32(f"{name}{d}{k}".encode())
-                ka = kinds[(h + k) % len(kinds)] if tier == "quick" else kinds[k]
+                ka = kinds[k]
                 S = R.SYSTEMS[d]
                 cfg = {"id": f"x:{name}|{d}|{k}", "op": "__extra__", "extra_call": name, "da": d, "db": d if needs_other else None,
                        "sa": R.sysname(S[(h >> 3) % len(S)]), "sb": R.sysname(S[(h >> 7) % len(S)]) if needs_other else None,
